@@ -868,6 +868,11 @@ impl<'a, 'b> Gen<'a, 'b> {
     pub fn stmt(&mut self, depth: usize, decl_ok: bool) -> Stmt {
         self.budget = self.budget.saturating_sub(1);
         let roll = self.t.below(if depth == 0 { 8 } else { 14 });
+        if self.p.call_bias > 0 && self.t.chance(24) {
+            if let Some(s) = self.array_chain() {
+                return s;
+            }
+        }
         match roll {
             0 | 1 if decl_ok && self.p.template && self.p.signals && self.p.nested_signal_decls && self.t.chance(90) => {
                 self.signal_decl()
@@ -965,6 +970,67 @@ impl<'a, 'b> Gen<'a, 'b> {
                 Stmt::While { id, cond, body: Box::new(body) }
             }
         }
+    }
+
+    /// `{ a[i] = <element without a degree>; a[j] = <simple>; x = a[i] op e; }` on an assigned array
+    /// (no declarations inside, so the block does not change scoping).
+    fn array_chain(&mut self) -> Option<Stmt> {
+        let arrays: Vec<VarInfo> = self
+            .visible()
+            .into_iter()
+            .filter(|v| matches!(v.ty, Ty::VarArr(n) if n >= 2) && v.protected.is_none() && self.assigned.contains(&v.key))
+            .collect();
+        if arrays.is_empty() {
+            return None;
+        }
+        let a = arrays[self.t.below(arrays.len())].clone();
+        let Ty::VarArr(n) = a.ty else { return None };
+        let i = self.t.below(n);
+        let j = (i + 1 + self.t.below(n - 1)) % n;
+        let mut stmts = Vec::new();
+        // first element: a helper call with compound arguments, or any expression
+        let saved = std::mem::replace(&mut self.saw_data, false);
+        let rhs1 = if !self.p.helpers.is_empty() && self.t.chance(180) {
+            let (name, arity) = self.p.helpers[self.t.below(self.p.helpers.len())].clone();
+            let args = (0..arity).map(|_| self.expr(1)).collect();
+            Expr::Call { id: self.ids.next(), name, args }
+        } else {
+            self.expr(2)
+        };
+        let rhs2 = if self.t.chance(150) { self.literal() } else { self.expr(1) };
+        let d = self.saw_data;
+        self.saw_data = saved || d;
+        self.taint(a.key, d);
+        let (first, second) = if self.t.chance(200) { ((i, rhs1), (j, rhs2)) } else { ((j, rhs2), (i, rhs1)) };
+        for (k, rhs) in [first, second] {
+            let ix = self.small_literal(k as u64);
+            let lhs = Expr::Var { id: self.ids.next(), name: a.name.clone(), access: vec![Access::Index(ix)] };
+            stmts.push(Stmt::Assign { id: self.ids.next(), lhs, op: AssignOp::Var, rhs, reversed: false });
+        }
+        // a read of one of the two elements into a scalar local, if there is one
+        let scalars: Vec<VarInfo> =
+            self.local_targets().into_iter().filter(|v| v.ty == Ty::Var && v.key != a.key).collect();
+        if !scalars.is_empty() && !(self.control_ctx) {
+            let x = scalars[self.t.below(scalars.len())].clone();
+            let k = if self.t.chance(128) { i } else { j };
+            let ix = self.small_literal(k as u64);
+            let read = Expr::Var { id: self.ids.next(), name: a.name.clone(), access: vec![Access::Index(ix)] };
+            let rhs = if self.t.chance(128) {
+                read
+            } else {
+                let op = self.infix_op();
+                let (e, d2) = self.expr_tracked(1);
+                self.taint(x.key, d2);
+                Expr::Infix { id: self.ids.next(), op, l: Box::new(read), r: Box::new(e) }
+            };
+            if self.tainted.contains(&a.key) {
+                self.tainted.insert(x.key);
+            }
+            let lhs = Expr::Var { id: self.ids.next(), name: x.name.clone(), access: vec![] };
+            stmts.push(Stmt::Assign { id: self.ids.next(), lhs, op: AssignOp::Var, rhs, reversed: false });
+            self.assigned.insert(x.key);
+        }
+        Some(Stmt::Block { id: self.ids.next(), stmts })
     }
 
     fn fallback_simple(&mut self) -> Stmt {
